@@ -183,7 +183,7 @@ def gen_file(rng, w, depth, outer_syms, earlier_syms):
       elif kind == 'attr':
         st.update(sel=sel[:-1] + ['no_such_attr'], _expect='AttributeError', _target=None)
       else:
-        st.update(arg='no_such_param', _expect='ValueError', _target=None)
+        st.update(arg='no_such_param', _expect='ValueError')   # registration happens before the parameter check
       stmts.append(st)
       return stmts
     stmts.append(st)
